@@ -140,7 +140,7 @@ func FamConc[T any](c Codec[T], seed int64) SysRecord {
 			from, rem = "B", p.rb
 		}
 		tag := 100 + i
-		kind := r.Intn(6)
+		kind := r.Intn(8)
 		x := int64(r.Intn(1000))
 		s := GenString(r)
 		wg.Add(1)
@@ -169,10 +169,19 @@ func FamConc[T any](c Codec[T], seed int64) SysRecord {
 				c.Method, c.Arg = "Sub.Ping", "null"
 				v, err := rem.Sub.Ping(context.Background(), tag)
 				c.Ret, c.Err = canon(v), errText(err)
-			default: // ... and at the top level
+			case 5: // ... and at the top level
 				c.Method, c.Arg = "After", "null"
 				v, err := rem.After(context.Background(), tag)
 				c.Ret, c.Err = canon(v), errText(err)
+			case 6: // a function whose handler returns nothing at all
+				c.Method, c.Arg = "Notify0", "null"
+				err := rem.Notify0(context.Background(), tag)
+				c.Ret, c.Err = "null", errText(err)
+			default: // an error-only function; the message is handed back verbatim (white space around it included)
+				msg := []string{" ", "\t", "", "\n"}[tag%4] + "e" + s + []string{"\n", "", "  ", "\t\n"}[(tag/4)%4]
+				c.Method, c.Arg = "Fail", canon(msg)
+				err := rem.Fail(context.Background(), tag, msg)
+				c.Ret, c.Err = "null", errText(err)
 			}
 			c.Done = true
 		}()
@@ -268,7 +277,7 @@ func FamValues[T any](c Codec[T], stream bool, chunk int, seed int64, n int) Sys
 		}
 		tag := 200 + i
 		cl := SysCall{Tag: tag, From: from}
-		switch r.Intn(18) {
+		switch r.Intn(19) {
 		case 0:
 			x := []int64{0, 1, -1, 1 << 40, -(1 << 40), 9007199254740991, int64(r.Intn(100000))}[r.Intn(7)]
 			cl.Method, cl.Arg, cl.Oracle = "EchoInt", canon(x), roundTrip(c, x)
@@ -371,6 +380,11 @@ func FamValues[T any](c Codec[T], stream bool, chunk int, seed int64, n int) Sys
 			cl.Method, cl.Arg, cl.Oracle = "EchoLevel", canon(string(lv)), canon(string(roundTripVal(c, lv)))
 			v, err := rem.EchoLevel(ctx, tag, lv)
 			cl.Ret, cl.Err = canon(string(v)), errText(err)
+		case 18: // a struct whose field type has a pointer-receiver JSON encoding: the VALUE is what is returned
+			ss := Session{Cred: Cred{User: "u" + GenString(r), Token: "tok-" + fmt.Sprint(tag)}, N: tag}
+			cl.Method, cl.Arg, cl.Oracle = "EchoSession", canon(ss), roundTrip(c, ss)
+			v, err := rem.EchoSession(ctx, tag, ss)
+			cl.Ret, cl.Err = canon(v), errText(err)
 		case 10: // named non-struct types
 			cn, nm := Count([]uint64{0, 7, 1 << 40}[r.Intn(3)]), Name(GenString(r))
 			cl.Method, cl.Arg, cl.Oracle = "EchoNamed", canon([]any{cn, nm}), "["+roundTrip(c, cn)+","+roundTrip(c, nm)+"]"
@@ -535,6 +549,43 @@ func FamErrors[T any](c Codec[T], stream bool, chunk int, seed int64, n int) Sys
 		cl.Done = true
 		rec.Calls = append(rec.Calls, cl)
 	}
+	// calls in flight together whose responses arrive back to back, alternately failing and succeeding: every
+	// call gets its own outcome (an error never leaks into, or vanishes from, a neighbouring response)
+	{
+		const k = 12
+		if !stream {
+			p.l.BAres.SetHold(true)
+		}
+		var wg sync.WaitGroup
+		var mu sync.Mutex
+		for j := 0; j < k; j++ {
+			tag := 360 + j
+			msg := "<nil>"
+			if j%2 == 0 {
+				msg = fmt.Sprintf("burst failure %d", j)
+			}
+			wg.Add(1)
+			go func() {
+				defer wg.Done()
+				err := p.ra.Fail(ctx, tag, msg)
+				cl := SysCall{Tag: tag, From: "A", Method: "Fail", Arg: canon(msg), Ret: "null", Err: errText(err), Done: true}
+				if err == nil {
+					cl.Err = "<nil>"
+				}
+				mu.Lock()
+				rec.Calls = append(rec.Calls, cl)
+				mu.Unlock()
+			}()
+		}
+		if !stream {
+			waitUntil(func() bool { return p.l.BAres.HeldLen() == k }, 3*time.Second)
+			p.l.BAres.Release(r)
+			p.l.BAres.SetHold(false)
+		}
+		if !waitAll(&wg, 8*time.Second) {
+			rec.Hang = true
+		}
+	}
 	// the link must still be healthy
 	v, err := p.ra.EchoInt(ctx, 399, 42)
 	rec.Calls = append(rec.Calls, SysCall{Tag: 399, From: "A", Method: "EchoInt", Arg: "42", Ret: canon(v), Err: errText(err), Done: true, Extra: "probe"})
@@ -649,6 +700,14 @@ func FamClosures[T any](c Codec[T], stream bool, chunk int, seed int64, n int) S
 		pcancel()
 		once.Do(func() { close(rel) })
 		rec.Calls = append(rec.Calls, SysCall{Tag: 486, From: "A", Method: "IterDerived", Ret: v, Err: errText(err), Done: true})
+	}
+	// function arguments between plain arguments: every argument arrives in its declared position
+	{
+		pctx, pcancel := context.WithTimeout(ctx, 5*time.Second)
+		v, err := p.rb.Mixed(pctx, 484, func(ctx context.Context, x int) (int, error) { return x * 10, nil }, 7,
+			func(ctx context.Context, x int) (int, error) { return x * 100, nil }, "tail")
+		pcancel()
+		rec.Calls = append(rec.Calls, SysCall{Tag: 484, From: "B", Method: "Mixed", Ret: v, Err: errText(err), Done: true})
 	}
 	// two closures in one call: each callable reaches its own function
 	{
@@ -800,6 +859,33 @@ func FamClosures[T any](c Codec[T], stream bool, chunk int, seed int64, n int) S
 		rec.Calls = append(rec.Calls, SysCall{Tag: 498, From: "B", Method: "LateInvoke", Ret: canon(v), Err: errText(err), Done: true, Extra: fmt.Sprint(ran)})
 	} else {
 		rec.Notes = append(rec.Notes, "callee did not receive the closure")
+	}
+	// ... and again while ANOTHER call that passes a function is in flight: the late invocation must not reach
+	// that other function either
+	if kept != nil {
+		otherRan := 0
+		started := make(chan struct{})
+		dctx, dcancel := context.WithTimeout(ctx, 5*time.Second)
+		ddone := make(chan SysCall, 1)
+		go func() {
+			v, err := p.ra.Delayed(dctx, 4990, func(ctx context.Context, x int) (int, error) { otherRan++; return x + 1, nil })
+			ddone <- SysCall{Tag: 4990, From: "A", Method: "DelayedDuringLateInvoke", Ret: canon(v), Err: errText(err), Done: true}
+		}()
+		go func() {
+			waitUntil(func() bool { return hasInv(p.w, "Delayed", 4990) }, 3*time.Second)
+			close(started)
+		}()
+		<-started
+		v, err := kept(ctx, 9)
+		rec.Calls = append(rec.Calls, SysCall{Tag: 4991, From: "B", Method: "LateInvokeWhileOtherInFlight", Ret: canon(v), Err: errText(err), Done: true, Extra: fmt.Sprintf("%v/%d", ran, otherRan)})
+		close(p.w.gate(4990))
+		select {
+		case cl := <-ddone:
+			rec.Calls = append(rec.Calls, cl)
+		case <-time.After(5 * time.Second):
+			rec.Calls = append(rec.Calls, SysCall{Tag: 4990, From: "A", Method: "DelayedDuringLateInvoke", Err: "DID-NOT-RETURN", Done: true})
+		}
+		dcancel()
 	}
 	// the late invocation is an application-level error: the link stays healthy
 	v2, err2 := p.ra.EchoInt(ctx, 497, 42)
@@ -1096,7 +1182,7 @@ func FamHub[T any](c Codec[T], seed int64) SysRecord {
 				v, err := rem.Iter(ctx, 780+i, 1, func(ctx context.Context, k int, st string, xs []int, b bool) (string, error) {
 					close(cbStarted[i])
 					<-w.gate(790 + i)
-					return "h", nil
+					return fmt.Sprintf("h%d", i), nil // each link's function answers with its own mark
 				})
 				add(SysCall{Tag: 780 + i, From: s.Name, Method: "IterAcross", Ret: v, Err: errText(err), Done: true})
 			}()
@@ -1113,7 +1199,7 @@ func FamHub[T any](c Codec[T], seed int64) SysRecord {
 		wg.Add(1)
 		go func() {
 			defer wg.Done()
-			v, err := rem.Delayed(ctx, 7100+i, func(ctx context.Context, x int) (int, error) { return x + 1, nil })
+			v, err := rem.Delayed(ctx, 7100+i, func(ctx context.Context, x int) (int, error) { return 20000*(i+1) + x, nil }) // same literal, own mark per link
 			add(SysCall{Tag: 7100 + i, From: "H", Method: "DelayedAcross", Ret: canon(v), Err: errText(err), Done: true})
 		}()
 	}
